@@ -41,6 +41,9 @@ fn pkt_strategy(raw_max: usize) -> BoxedStrategy<PktCase> {
     let input = prop_oneof![
         5 => packet_strategy().prop_map(ReqSpec::Built),
         3 => conformant_strategy().prop_map(ReqSpec::Built),
+        4 => soup_request(),
+        1 => tight_strategy().prop_map(ReqSpec::Built),
+        1 => tight_nts_strategy().prop_map(ReqSpec::Built),
         2 => prop::collection::vec(any::<u8>(), 0..120).prop_map(ReqSpec::Raw),
         2 => prop::collection::vec(any::<u8>(), 48..raw_max).prop_map(ReqSpec::Raw),
         // raw: plausible header + random tail
@@ -96,10 +99,10 @@ pub struct C23;
 impl Property for C23 {
     type Case = PktCase;
     const ID: &'static str = "C23";
-    const RULE: &'static str = "byte strings 0..4096 (raw, plausible header + random tail, reference-built v3/v4/v5 packets with extension-field chains, NTS authenticators and MACs, and mutations/truncations/extensions of those) × three key contexts (none, client session key, server cookie keys incl. rotated key sets); oracle = NtpPacket::deserialize and the packet accessors return (no panic); non-trivial = input of at least 48 bytes with a decodable version field";
+    const RULE: &'static str = "byte strings 0..4096 (raw, plausible header + random tail, reference-built v3/v4/v5 packets with extension-field chains, NTS authenticators and MACs, mutations/truncations/extensions of those, and well-formed headers followed by raw extension-field chains whose declared lengths are equal to / slightly off / unrelated to the bytes present, incl. authenticator fields with small nonce/ciphertext length fields) × three key contexts (none, client session key, server cookie keys incl. rotated key sets); oracle = NtpPacket::deserialize and the packet accessors return (no panic); non-trivial = input of at least 48 bytes with a decodable version field";
     const ASSUMPTIONS: &'static [&'static str] = &["release semantics (debug assertions off); a panic is observed through unwinding"];
-    const QUICK_CASES: u32 = 200_000;
-    const THOROUGH_CASES: u32 = 10_000_000;
+    const QUICK_CASES: u32 = 1_000_000;
+    const THOROUGH_CASES: u32 = 20_000_000;
     fn strategy(_t: Tier) -> BoxedStrategy<PktCase> {
         pkt_strategy(4097)
     }
@@ -145,8 +148,8 @@ impl Property for C24 {
     const ID: &'static str = "C24";
     const RULE: &'static str = "inputs as for C23 without keys; for every input the decoder accepts: re-encode (64 KiB buffer) must succeed, decoding the re-encoded bytes must succeed and yield a packet whose encoding equals those bytes and which decodes to itself (stable after one normalising round); non-trivial = accepted packet with at least one extension field or a MAC (distinct inputs)";
     const ASSUMPTIONS: &'static [&'static str] = &["p1 == p2 is not demanded: v4 padding legitimately becomes field data on the first round", "release semantics"];
-    const QUICK_CASES: u32 = 200_000;
-    const THOROUGH_CASES: u32 = 10_000_000;
+    const QUICK_CASES: u32 = 600_000;
+    const THOROUGH_CASES: u32 = 15_000_000;
     fn strategy(_t: Tier) -> BoxedStrategy<PktCase> {
         pkt_strategy(1500).prop_map(|mut c| { c.ctx = 0; c }).boxed()
     }
@@ -233,8 +236,8 @@ impl Property for C25 {
     const ID: &'static str = "C25";
     const RULE: &'static str = "valid NTS requests (decoded with the server key set, cookie under the current or a retained key) and responses (decoded with the client's s2c key) built by the reference codec with random field layouts, nonce lengths and authenticator padding; for each packet EVERY single-bit flip and 3 byte substitutions at EVERY position (exhaustive over positions); oracle = region map of the builder: header/pre-authenticator fields/nonce/ciphertext ⇒ nothing authenticated, nothing encrypted, no cookie keys; other regions ⇒ that, or authenticated+encrypted lists identical to the original; non-trivial = packet with ≥1 authenticated and ≥1 encrypted field (distinct packets)";
     const ASSUMPTIONS: &'static [&'static str] = &["AES-SIV forgery probability is negligible", "the reference builder's region map is trusted"];
-    const QUICK_CASES: u32 = 1_600;
-    const THOROUGH_CASES: u32 = 100_000;
+    const QUICK_CASES: u32 = 6_400;
+    const THOROUGH_CASES: u32 = 200_000;
     const MAX_SHRINK_ITERS: u32 = 300;
     fn strategy(_t: Tier) -> BoxedStrategy<TamperCase> {
         (conformant_strategy(), any::<bool>(), any::<u64>(), any::<u64>(), 0u8..3, prop::collection::vec(any::<u8>(), 0..40), 0u8..3, prop::collection::vec(ef_strategy(false), 0..3))
